@@ -267,19 +267,34 @@ func gbPreAlloc(f *engine.Fn, s *engine.Site) (bool, string) {
 			why = "installed allocator is not a local variable"
 			continue
 		}
-		capped := false
+		capped, metered := false, false
 		for _, r := range d.defs[a] {
-			if call, ok := ast.Unparen(r).(*ast.CallExpr); ok && gbCalleeName(info, call) == gbG+"NewAllocator" && len(call.Args) == 1 {
+			call, ok := ast.Unparen(r).(*ast.CallExpr)
+			if !ok {
+				continue
+			}
+			if gbCalleeName(info, call) == gbG+"NewAllocator" && len(call.Args) == 1 {
 				if v, isC := gbConstInt(info, call.Args[0]); isC && v > 0 {
 					capped = true
+				}
+				continue
+			}
+			// a private constructor helper: returns NewAllocator(<its parameter>) with the gas meter set,
+			// and this call site passes a positive constant for that parameter
+			if cs := root.SiteOf(call); cs != nil {
+				if fo, isF := cs.Callee.(*types.Func); isF {
+					if h := root.Prog.FnOf(fo); h != nil {
+						hc, hm := gbAllocHelper(h, call, info)
+						capped = capped || hc
+						metered = metered || (hc && hm)
+					}
 				}
 			}
 		}
 		if !capped {
-			why = "the preprocess allocator is not NewAllocator(<positive constant>) (0 means unlimited/nil)"
+			why = "the preprocess allocator is not NewAllocator(<positive constant>) (0 means unlimited/nil), directly or via a constructor helper"
 			continue
 		}
-		metered := false
 		for _, sg := range root.CallsTo(gbG + "(*Allocator).SetGasMeter") {
 			if sel, ok := ast.Unparen(sg.Call.Fun).(*ast.SelectorExpr); ok && engine.ObjOf(info, sel.X) == a && g.Dominates(sg, ins) && len(sg.Call.Args) == 1 && !isNil(sg.Call.Args[0]) {
 				metered = true
@@ -302,6 +317,76 @@ func gbPreAlloc(f *engine.Fn, s *engine.Site) (bool, string) {
 		return true, "capped, metered preprocess allocator installed before running; reset deferred"
 	}
 	return false, why
+}
+
+// gbAllocHelper: h is a constructor helper: every return yields a variable (or call) defined as
+// NewAllocator(p) with p a parameter of h for which `call` passes a positive constant (or a positive
+// constant itself); metered reports that SetGasMeter(non-nil) is applied to it on every normal exit.
+func gbAllocHelper(h *engine.Fn, call *ast.CallExpr, callerInfo *types.Info) (capped, metered bool) {
+	info := h.Info()
+	d := gbCollectDefs(h)
+	paramIndex := func(o types.Object) int {
+		for i := 0; ; i++ {
+			po := paramObj(h, i)
+			if po == nil {
+				return -1
+			}
+			if po == o {
+				return i
+			}
+		}
+	}
+	nRet := 0
+	capped = true
+	var allocVar types.Object
+	engine.InspectBody(h, func(n ast.Node) {
+		r, ok := n.(*ast.ReturnStmt)
+		if !ok {
+			return
+		}
+		nRet++
+		if len(r.Results) != 1 {
+			capped = false
+			return
+		}
+		e := r.Results[0]
+		if id, isId := ast.Unparen(e).(*ast.Ident); isId {
+			allocVar = info.ObjectOf(id)
+		}
+		e = d.resolveLocal(e)
+		nc, isC := ast.Unparen(e).(*ast.CallExpr)
+		if !isC || gbCalleeName(info, nc) != gbG+"NewAllocator" || len(nc.Args) != 1 {
+			capped = false
+			return
+		}
+		if v, isK := gbConstInt(info, nc.Args[0]); isK {
+			if v <= 0 {
+				capped = false
+			}
+			return
+		}
+		i := paramIndex(engine.ObjOf(info, nc.Args[0]))
+		if i < 0 || i >= len(call.Args) {
+			capped = false
+			return
+		}
+		if v, isK := gbConstInt(callerInfo, call.Args[i]); !isK || v <= 0 {
+			capped = false
+		}
+	})
+	if nRet == 0 {
+		return false, false
+	}
+	if allocVar != nil {
+		var sets []*engine.Site
+		for _, sg := range h.CallsTo(gbG + "(*Allocator).SetGasMeter") {
+			if sel, ok := ast.Unparen(sg.Call.Fun).(*ast.SelectorExpr); ok && engine.ObjOf(info, sel.X) == allocVar && len(sg.Call.Args) == 1 && !isNil(sg.Call.Args[0]) {
+				sets = append(sets, sg)
+			}
+		}
+		metered = len(sets) > 0 && gbExitWithout(h, sets, nil) == nil
+	}
+	return capped, metered
 }
 
 // ---- (3) query gas limits ----
@@ -446,18 +531,25 @@ func gbC11RunOnce(c *engine.Ctx, p *engine.Prog) {
 					okObj = engine.ObjOf(info, as.Lhs[1])
 				}
 			})
-			// (a) a re-panic on the !ok branch
-			repanic := false
-			for _, s := range h.CallsTo("builtin.panic") {
-				for _, gt := range g.Gates(s) {
-					if id, ok := ast.Unparen(gt.Cond).(*ast.Ident); ok && okObj != nil && info.ObjectOf(id) == okObj && !gt.OnTrue {
-						repanic = true
-					}
+			// the recovered value
+			var rObj types.Object
+			for _, rs := range h.CallsTo("builtin.recover") {
+				if vs := gbAssignedVars(h, rs); len(vs) == 1 {
+					rObj = vs[0]
 				}
 			}
-			// (b) every assignment to the named result `caught` is on the ok branch
+			okFact := func(fs []gbFact, want bool) bool {
+				for _, ft := range fs {
+					if id, isId := ast.Unparen(ft.E).(*ast.Ident); isId && okObj != nil && info.ObjectOf(id) == okObj && ft.Pos == want {
+						return true
+					}
+				}
+				return false
+			}
+			// (b) `caught` is assigned only where the recovered value is known to be *Exception
 			onlyEx := true
 			nAssign := 0
+			var assigns []*engine.Site
 			engine.InspectBody(h, func(n ast.Node) {
 				as, ok := n.(*ast.AssignStmt)
 				if !ok {
@@ -467,21 +559,72 @@ func gbC11RunOnce(c *engine.Ctx, p *engine.Prog) {
 					if o := engine.ObjOf(info, l); o != nil && gbNamedResult(f, o) {
 						nAssign++
 						st := h.SiteOf(as)
-						good := false
-						if st != nil {
-							for _, gt := range g.Gates(st) {
-								if id, ok := ast.Unparen(gt.Cond).(*ast.Ident); ok && info.ObjectOf(id) == okObj && gt.OnTrue {
-									good = true
-								}
-							}
-						}
-						if !good {
+						if st == nil || !okFact(gbFactsOf(g.Gates(st)), true) {
 							onlyEx = false
+						} else {
+							assigns = append(assigns, st)
 						}
 					}
 				}
 			})
-			// (c) every non-nil recovered value either sets caught or re-panics: no normal exit on the !ok branch
+			// (a) every other non-nil recovered value reaches a panic: no normal exit is reachable
+			// without passing an assignment of `caught`, except along the "recovered value is nil" edge;
+			// and the re-panic carries the recovered value where it is known not to be *Exception
+			repanic := false
+			for _, s := range h.CallsTo("builtin.panic") {
+				if len(s.Call.Args) == 1 && rObj != nil && engine.ObjOf(info, s.Call.Args[0]) == rObj && okFact(gbFactsOf(g.Gates(s)), false) {
+					repanic = true
+				}
+			}
+			if rObj != nil && repanic {
+				avoid := map[*cfgBlock]bool{}
+				for _, st := range assigns {
+					avoid[st.Block] = true
+				}
+				seen := map[*cfgBlock]bool{}
+				var leak *cfgBlock
+				exits := map[*cfgBlock]bool{}
+				for _, ex := range gbNormalExits(h) {
+					exits[ex] = true
+				}
+				var walk func(b *cfgBlock)
+				walk = func(b *cfgBlock) {
+					if seen[b] || avoid[b] || leak != nil {
+						return
+					}
+					seen[b] = true
+					if exits[b] {
+						leak = b
+						return
+					}
+					cut := -1
+					if len(b.Succs) == 2 && len(b.Nodes) > 0 {
+						if cond, isE := b.Nodes[len(b.Nodes)-1].(ast.Expr); isE {
+							var fs []gbFact
+							gbSplitFact(cond, true, &fs)
+							if len(fs) == 1 {
+								if x, isNilHolds, isCmp := gbIsNilCmp(fs[0]); isCmp && engine.ObjOf(info, x) == rObj {
+									cut = 1 // cond true means r != nil: the nil side is the false edge
+									if isNilHolds {
+										cut = 0
+									}
+								}
+							}
+						}
+					}
+					for i, sc := range b.Succs {
+						if i != cut {
+							walk(sc)
+						}
+					}
+				}
+				if len(g.CFG.Blocks) > 0 {
+					walk(g.CFG.Blocks[0])
+				}
+				if leak != nil {
+					repanic = false
+				}
+			}
 			c.Check("runonce-recover", f.Name+" re-panics non-Exception", h.Pos(), okObj != nil && repanic, "a recovered value that is not *Exception must be re-panicked (only Gno-level exceptions are converted)")
 			c.Check("runonce-recover", f.Name+" converts only *Exception", h.Pos(), okObj != nil && onlyEx && nAssign >= 1, "the result `caught` may be set only from a recovered *Exception")
 		}
